@@ -31,8 +31,11 @@ enum Fault {
     Statement(usize, &'static str, &'static [&'static str]),
     DuplicateParam(usize),
     DuplicateDefinition(usize),
-    TwoMainsTwoFiles,
+    /// `true`: the two entry points hold nothing but a pragma, an include and their main component
+    TwoMainsTwoFiles(bool),
     SecondMainSameFile,
+    /// the clean project plus `usize` named paths that do not exist
+    MissingMany(usize),
 }
 
 impl Fault {
@@ -52,26 +55,28 @@ impl Fault {
             Fault::Statement(_, s, _) => format!("statement:{s}"),
             Fault::DuplicateParam(..) => "duplicate_parameter".into(),
             Fault::DuplicateDefinition(..) => "duplicate_definition".into(),
-            Fault::TwoMainsTwoFiles => "two_mains_two_files".into(),
+            Fault::TwoMainsTwoFiles(false) => "two_mains_two_files".into(),
+            Fault::TwoMainsTwoFiles(true) => "two_mains_two_files_without_definitions".into(),
+            Fault::MissingMany(n) => format!("missing_paths_{n}"),
             Fault::SecondMainSameFile => "second_main_same_file".into(),
         }
     }
     fn expected_ids(&self) -> &'static [&'static str] {
         match self {
-            Fault::MissingPath | Fault::MissingOther(_) | Fault::DanglingSymlink | Fault::InvalidUtf8 => &["P1000"],
+            Fault::MissingPath | Fault::MissingOther(_) | Fault::MissingMany(_) | Fault::DanglingSymlink | Fault::InvalidUtf8 => &["P1000"],
             Fault::VersionTooNew(_) | Fault::VersionTooOld(_) => &["P1003"],
             Fault::Lexical(..) | Fault::Unmatched(..) | Fault::DroppedSemicolon(..) | Fault::SecondMainSameFile | Fault::Unterminated(_) | Fault::SymlinkToBlob => &["P1000"],
             Fault::Statement(_, _, ids) => ids,
             Fault::DuplicateParam(..) => &["CS0002"],
             Fault::DuplicateDefinition(..) => &["T2008"],
-            Fault::TwoMainsTwoFiles => &["P1002"],
+            Fault::TwoMainsTwoFiles(_) => &["P1002"],
         }
     }
     /// true when the expected diagnostic must be located in the faulted file
     fn located(&self) -> bool {
         !matches!(
             self,
-            Fault::MissingPath | Fault::MissingOther(_) | Fault::DanglingSymlink | Fault::SymlinkToBlob | Fault::InvalidUtf8 | Fault::VersionTooNew(_) | Fault::VersionTooOld(_) | Fault::TwoMainsTwoFiles
+            Fault::MissingPath | Fault::MissingOther(_) | Fault::DanglingSymlink | Fault::SymlinkToBlob | Fault::InvalidUtf8 | Fault::VersionTooNew(_) | Fault::VersionTooOld(_) | Fault::TwoMainsTwoFiles(_) | Fault::MissingMany(_)
         )
     }
 }
@@ -135,7 +140,7 @@ fn apply(p: &GenProject, target: usize, fault: &Fault) -> Option<Vec<u8>> {
     let toks = &f.r.toks;
     let src = &f.r.src;
     match fault {
-        Fault::MissingPath | Fault::MissingOther(_) | Fault::DanglingSymlink | Fault::TwoMainsTwoFiles => Some(src.clone().into_bytes()),
+        Fault::MissingPath | Fault::MissingOther(_) | Fault::MissingMany(_) | Fault::DanglingSymlink | Fault::TwoMainsTwoFiles(_) => Some(src.clone().into_bytes()),
         Fault::InvalidUtf8 => {
             let mut b = src.clone().into_bytes();
             let at = b.len() / 2;
@@ -320,7 +325,11 @@ fn case_in(ctx: &Ctx, p: &GenProject, t: &mut Tape, rec: &Rec, dir: &Path) -> Ve
         faults.push(Fault::DuplicateParam(d));
         faults.push(Fault::DuplicateDefinition(d));
     }
-    faults.push(Fault::TwoMainsTwoFiles);
+    faults.push(Fault::TwoMainsTwoFiles(false));
+    faults.push(Fault::TwoMainsTwoFiles(true));
+    if t.chance(40) {
+        faults.push(Fault::MissingMany([255, 256, 257, 512][t.below(4)]));
+    }
     faults.push(Fault::SecondMainSameFile);
 
     for fault in &faults {
@@ -355,16 +364,31 @@ fn case_in(ctx: &Ctx, p: &GenProject, t: &mut Tape, rec: &Rec, dir: &Path) -> Ve
                 let _ = std::fs::remove_file(&tpath);
                 let _ = std::os::unix::fs::symlink(&blob, &tpath);
             }
-            Fault::TwoMainsTwoFiles => {
+            Fault::TwoMainsTwoFiles(bare) => {
                 std::fs::write(&tpath, &bytes).map_err(|e| Bad::new(format!("INFRA write: {e}")))?;
                 let m1 = fdir.join("zmain1.circom");
                 let m2 = fdir.join("zmain2.circom");
-                let body = "pragma circom 2.0.0;\ntemplate ZzM() { signal input a; signal output o; o <== a; }\ncomponent main = ZzM();\n";
-                std::fs::write(&m1, body).map_err(|e| Bad::new(format!("INFRA write: {e}")))?;
+                let template = "template ZzM() { signal input a; signal output o; o <== a; }\n";
+                if *bare {
+                    std::fs::write(fdir.join("zzmlib.circom"), format!("pragma circom 2.0.0;\n{template}{}", template.replace("ZzM", "ZzN")))
+                        .map_err(|e| Bad::new(format!("INFRA write: {e}")))?;
+                }
+                let body = if *bare {
+                    "pragma circom 2.0.0;\ninclude \"zzmlib.circom\";\ncomponent main = ZzM();\n".to_string()
+                } else {
+                    format!("pragma circom 2.0.0;\n{template}component main = ZzM();\n")
+                };
+                std::fs::write(&m1, &body).map_err(|e| Bad::new(format!("INFRA write: {e}")))?;
                 std::fs::write(&m2, body.replace("ZzM", "ZzN")).map_err(|e| Bad::new(format!("INFRA write: {e}")))?;
                 // drop a main of the project itself so that exactly these two (or three) compete
                 named2.push(m1);
                 named2.push(m2);
+            }
+            Fault::MissingMany(n) => {
+                std::fs::write(&tpath, &bytes).map_err(|e| Bad::new(format!("INFRA write: {e}")))?;
+                for i in 0..*n {
+                    named2.push(fdir.join(format!("zz-missing-{i}.circom")));
+                }
             }
             _ => std::fs::write(&tpath, &bytes).map_err(|e| Bad::new(format!("INFRA write: {e}")))?,
         }
@@ -589,7 +613,7 @@ pub fn run(ctx: &Ctx) -> i32 {
         &outcome,
         EvidenceSpec {
             level: "fault_enumeration",
-            rule: "a generated project (1-2 files, 1-2 small definitions each, optional main component) is first run at --level error and kept only if it is clean (exit 0, `No issues found.`, every definition of every named file has its `analyzing` line — this is the converse clause). Then one fault at a time is injected into a named file and the real binary is run at --level info, warning and error: missing path, dangling symlink, invalid UTF-8 (stand-in for unreadable: the sandbox runs as root), version pragma above 2.1.4 / below 2.0.0, a character no token contains (@ # ' `) and an unmatched ) ] } before every token of files with <= 40 tokens (14 sampled positions otherwise), every `;` dropped (up to 8), an invalid tuple or anonymous component statement (16 template forms, 4 function forms incl. a non-variable assignment target) at the start of each definition body, a repeated parameter, a duplicated definition, two main components in two files / in one file, a path that does not exist under five names that do not end in `.circom`, and a second definition of a name of the named file inside a file that is only included (there the oracle is: error displayed, or every definition of the named files still analysed). Oracle: exit status != 0 and an error-level diagnostic whose id is in the expected set for the fault class, located in the faulted file where the fault leaves a file to point into. Non-trivial = distinct (project, fault, position, level); one evaluation = one project with all its faults.",
+            rule: "a generated project (1-2 files, 1-2 small definitions each, optional main component) is first run at --level error and kept only if it is clean (exit 0, `No issues found.`, every definition of every named file has its `analyzing` line — this is the converse clause). Then one fault at a time is injected into a named file and the real binary is run at --level info, warning and error: missing path, dangling symlink, invalid UTF-8 (stand-in for unreadable: the sandbox runs as root), version pragma above 2.1.4 / below 2.0.0, a character no token contains (@ # ' `) and an unmatched ) ] } before every token of files with <= 40 tokens (14 sampled positions otherwise), every `;` dropped (up to 8), an invalid tuple or anonymous component statement (16 template forms, 4 function forms incl. a non-variable assignment target) at the start of each definition body, a repeated parameter, a duplicated definition, two main components in two files (entry points with or without definitions of their own) / in one file, in a sixth of the projects 255, 256, 257 or 512 further named paths that do not exist, a path that does not exist under five names that do not end in `.circom`, and a second definition of a name of the named file inside a file that is only included (there the oracle is: error displayed, or every definition of the named files still analysed). Oracle: exit status != 0 and an error-level diagnostic whose id is in the expected set for the fault class, located in the faulted file where the fault leaves a file to point into. Non-trivial = distinct (project, fault, position, level); one evaluation = one project with all its faults.",
             assumptions: vec!["message wording is not inspected; only severity, id and file".into()],
             extra: json!({"faulted_binary_runs_core_classes": faulted_runs}),
         },
